@@ -100,6 +100,8 @@ def pivot_zero_only_if_all_zero(P, ncand=None):
             return 'the pivot size evaluates to 0 for column candidates %s: the matrix is reported singular although a candidate pivot is non-zero' % (list(vals),)
     return None
 
+GUARD_NOTES = []
+
 def guard_check(leaf, lits, d, lt):
     """R06.guard for one non-singular leaf on the |det| < 1 side"""
     d_lits = dict(lits)
@@ -118,10 +120,19 @@ def guard_check(leaf, lits, d, lt):
             if z.op == 'fneg': z = z.args[0]
             return z is y
         def is_scaled_abs_den(x):
-            # |den| / min  or  |den| * (1/min)
-            if x.op == 'fdiv' and is_abs_of(x.args[0], den) and x.args[1].op == 'const': return True
-            if x.op == 'fmul' and any(a.op == 'const' for a in x.args) and any(is_abs_of(a, den) for a in x.args): return True
-            return False
+            # |den| / C  or  |den| * (1/C): the quotient is accepted when |num/den| < 1/C.  "Singular" is a quotient that would
+            # overflow, so 1/C has to lie within a small factor of the largest finite value: max/8 <= 1/C <= max
+            C = None
+            if x.op == 'fdiv' and is_abs_of(x.args[0], den) and x.args[1].op == 'const': C = T.const_value(x.args[1])
+            elif x.op == 'fmul' and any(a.op == 'const' for a in x.args) and any(is_abs_of(a, den) for a in x.args):
+                k = [a for a in x.args if a.op == 'const'][0]; kv = T.const_value(k)
+                C = (1 / Fraction(kv)) if (not isinstance(kv, str) and kv != 0) else None
+            if C is None or isinstance(C, str) or C <= 0: return False
+            mx = Fraction(2 ** 128 - 2 ** 104) if lt == 'float' else Fraction(2 ** 1024 - 2 ** 971)
+            if not (mx / 8 <= 1 / Fraction(C) <= mx):
+                GUARD_NOTES.append('the overflow guard accepts a quotient only below %.3g; the largest finite value is %.3g, so well-defined inverses are reported singular (or overflowing ones accepted)' % (float(1 / Fraction(C)), float(mx)))
+                return False
+            return True
         for c, val in lits:
             if c.op == 'fcmp' and c.attr in ('olt', 'ole'):
                 a, b = c.args
@@ -198,11 +209,15 @@ def main(rep, ws, tier):
                     big = any(c.op == 'fcmp' and c.attr == 'ole' and c.args[0].op == 'const' and T.const_value(c.args[0]) == 1 and v is True for c, v in lits)
                     if not big and missing and badg is None:
                         badg = 'slot(s) %s are divided by the determinant on the |det| < 1 path without the overflow guard of the same slot' % ['[%d][%d]' % (k // d, k % d) for k in missing]
+                        if GUARD_NOTES: badg += ': ' + GUARD_NOTES[0]
                     key = tuple(sorted(k for k, v in enumerate(leaf.args) if (v.args[0] if v.op == 'fneg' else v).op == 'fdiv'))
                     div_sets.setdefault(tuple(c for c, v in lits if c.op == 'fcmp' and c.attr == 'oeq'), {}).setdefault(big, set()).add(key)
                 if leaf.id in generic_ok:
                     ninv += 1
-                    if m['fn'] == 'inverse' and leaf.id in det_leaves: guard_of_leaf()      # the same value on another path of this function: its guard is a property of the path
+                    # the same value on another path, or in the bool overload: its guard is a property of the path.  A determinant
+                    # path is one that has compared |det| with 1 (the Gauss-Jordan leaves reached through inverse() have not)
+                    detpath = any(c.op == 'fcmp' and any(a.op == 'const' and T.const_value(a) == 1 for a in c.args) and any(a.op == 'absi' for a in c.args) for c, v in lits)
+                    if m['fn'].startswith('inverse') and (leaf.id in det_leaves or detpath): guard_of_leaf()
                     continue
                 try:
                     e, nc = check_leaf(leaf, lits, d, t, max_conds=12)
@@ -214,7 +229,7 @@ def main(rep, ws, tier):
                 if e:
                     bad = e + ' on the path ' + ', '.join('%s=%s' % (T.show(c, 2)[:50], v) for c, v in lits[:8]); break
                 ninv += 1
-                if m['fn'] == 'inverse':
+                if m['fn'].startswith('inverse'):
                     det_leaves.add(leaf.id)
                     guard_of_leaf()
             if bad:
@@ -230,7 +245,7 @@ def main(rep, ws, tier):
                    '%d singular exits, each stores the identity' % nsing if nsing else 'no singular exit returns the identity', where, nontrivial=False)
             if m['fn'].startswith('gj'):
                 rep.ob(oid + '#singular-iff', 'R06.sing', VIOLATED if badp else HOLDS, badp or '%d singular exits: the pivot size is 0 only when every candidate of the column is 0 (signed order types enumerated)' % npiv, where)
-            if m['fn'] == 'inverse':
+            if m['fn'].startswith('inverse'):
                 incons = [k for k, v in div_sets.items() if len(v) == 2 and v[True] != v[False] and not (v[False] <= v[True] or v[True] <= v[False])]
                 rep.ob(oid + '#guard', 'R06.guard', VIOLATED if (badg or incons) else HOLDS, badg or ('the two scaling branches divide different slot sets' if incons else ''), where)
         # R06.affine: follows from R06.adj on both branches (inverse is unique)
